@@ -165,7 +165,12 @@ class H:
         # pointer checks of std/stub code ('never' | 'thorough' | 'always'): /repo contains no unsafe code, so these
         # only re-check std; Rust-level panics (bounds, overflow, unwrap, str slicing) are assertion checks and stay on.
         self.memsafe = memsafe
-        # Kani's per-assertion reachability checks ('never' | 'thorough' | 'always'); explicit covers are always on
+        # Kani's per-assertion reachability checks ('never' | 'thorough' | 'always'); explicit covers are always on.
+        # Pipeline harnesses (S-PIPE family) never enable them: with hundreds of extra cover traces kani-driver itself ran
+        # out of its memory budget while reading CBMC's output (c04_binding, c04_witness_fwA_fwA_caron in the thorough tier);
+        # their explicit pv_cover! reachability witnesses stay on.
+        if any(x.startswith('pipe') for x in self.stubs):
+            reach = 'never'
         self.reach = reach
 
     def kani_flags(self, tier):
@@ -750,11 +755,13 @@ HARNESSES = [
 ]
 
 # ---------------------------------------------------------------- C01 = dedicated harness + designated re-runs
+# (reach='never': C01 counts panic/overflow/index checks; reachability is established by the source property's own check and by
+#  the explicit covers, and the thorough tier of C01 then runs exactly the solver queries that were measured in the quick tier)
 def _c01(src, tiers=Q, **kw):
     h = by_name(src)
     n = H('C01', 'c01_' + src.split('_', 1)[1], h.body, crate=h.crate, unwind=h.unwind, stubs=h.stubs, tiers=tiers, timeout=h.timeout,
           mem_gb=h.mem_gb, funcs=h.funcs, bound=h.bound + ' [panic/overflow/index/str-boundary checks only]',
-          unwindset=h.unwindset, only_safety=True, expect_unsat_cover=h.expect_unsat_cover, **kw)
+          unwindset=h.unwindset, only_safety=True, expect_unsat_cover=h.expect_unsat_cover, reach='never', **kw)
     return n
 
 
@@ -768,10 +775,10 @@ def by_name(name):
 _RULES = ['zwnj', 'zwj', 'middle_dot', 'keraia', 'hebrew', 'katakana', 'arabic', 'ext_arabic', 'registry']
 for _k, _r in enumerate(_RULES):
     HARNESSES.append(H('C01', 'c01_ctx_%s_n3' % _r, '$P::c01::ctx_rules::<3, 12, %d, _>' % _k, unwind=6, stubs=('ctx',), timeout=1200, mem_gb=12,
-                       tiers=Q if _r in ('keraia', 'hebrew', 'arabic', 'ext_arabic') else T,
+                       tiers=Q if _r in ('keraia', 'hebrew', 'arabic', 'ext_arabic') else T, reach='never',
                        funcs=['context::rule_* #%d (%s)' % (_k, _r)],
                        bound='labels of 0..=3 characters, every character any Unicode scalar value; offset ANY usize'))
-HARNESSES.append(H('C01', 'c01_ctx_zwnj_n2', '$P::c01::ctx_rules::<2, 8, 0, _>', unwind=4, unwindset=(('25rule_zero_width_nonjoiner', 3), (r'10advance_by\w*\.0$', 2), ('10advance_by', 4)), stubs=('ctx',), timeout=1200, mem_gb=14,
+HARNESSES.append(H('C01', 'c01_ctx_zwnj_n2', '$P::c01::ctx_rules::<2, 8, 0, _>', unwind=4, unwindset=(('25rule_zero_width_nonjoiner', 3), (r'10advance_by\w*\.0$', 2), ('10advance_by', 4)), stubs=('ctx',), timeout=1200, mem_gb=14, reach='never',
                    funcs=['context::rule_zero_width_nonjoiner'], bound='labels of 0..=2 characters, every character any Unicode scalar value; offset ANY usize'))
 for _src, _t in [('c14_pairing', Q), ('c14_pred_is_space', Q), ('c02_any_class_n4', Q), ('c12_opaque_map_n3', T), ('c11_width_one', Q),
                  ('c13_stabilize_any_fn', Q), ('c05_opaque_enforce_n1', Q), ('c06_nickname_prepare_n1', Q), ('c07_const_nickname_k2', Q),
